@@ -457,7 +457,7 @@ def plan(prop, tier):
     if tier == "thorough":
         return {"runs": 40000, "budget_s": 900, "timeout_s": 240,
                 "selfcheck_runs": 12}
-    return {"runs": 1600, "budget_s": 80, "timeout_s": 120,
+    return {"runs": 2800, "budget_s": 80, "timeout_s": 120,
             "selfcheck_runs": 6}
 
 
